@@ -802,7 +802,7 @@ REPLAYERS["e4"] = _replay_e4
 def c15(res, tier, rng, wd):
     thorough = tier == "thorough"
     c = {"MaxSessions": 2, "MaxConns": 4 if thorough else 3, "QCap": 2, "SCap": 2, "CCap": 1, "MaxDecodes": 5 if thorough else 4,
-         "FanOut": '"try"'}
+         "MaxCloses": 2, "FanOut": '"try"'}
     vf.design_run(res, "C15", "ServerTask_MC", "ServerTask_MC.tla", "Spec", c, ["Bounded", "AgeOrdered", "QueuesBounded"],
                   ["ShutdownHonoured", "SessionsClosed"], workers=8)
     c0 = dict(c)
@@ -815,6 +815,8 @@ def c15(res, tier, rng, wd):
                   expect_violation="ShutdownHonoured", workers=8)
     scs = e4.gen_c15(rng, 300 if thorough else 50, thorough)
     run_e4(res, "C15", scs, wd, "c15")
+    # spec -> impl: behaviours of the design model chosen by TLC's simulation, replayed on the production server task
+    run_e4(res, "C15", e4.sim_scripts(wd, 1500 if thorough else 150, res.seed), wd, "c15sim")
     tls = e4.gen_c15_tls(rng)
     for i, s in enumerate(tls):
         s["id"] = 10000 + i
